@@ -185,6 +185,11 @@ fn render_fields(style: StyleIn, fs: &[FieldIn], base: usize, out: &mut String, 
                 }
                 render_field(f, base + j, out, side);
             }
+            // a trailing comma after the last positional field is legal and changes nothing (`S(u8,)` is a newtype);
+            // written whenever the byte sum of the field types is even, so that both spellings occur for every count
+            if !fs.is_empty() && fs.iter().map(|f| f.ty.bytes().map(|b| b as usize).sum::<usize>()).sum::<usize>() % 2 == 0 {
+                out.push(',');
+            }
             out.push(')');
         }
     }
@@ -401,7 +406,7 @@ fn magic_of<'a>(s: &'a Spec, name: &str) -> Option<&'a Magic> {
 
 fn wrap_val(m: &Magic, v: Val, original: Val) -> Val {
     match m.wrap.as_str() {
-        "result" => Val::Variant("Result".into(), "Ok".into(), vec![("0".into(), v)]),
+        "result" | "result_ast" => Val::Variant("Result".into(), "Ok".into(), vec![("0".into(), v)]),
         "spanned" => Val::Spanned(Box::new(v), (0, 0)),
         "with_original" => Val::Struct("WithOriginal".into(), vec![("parsed".into(), v), ("original".into(), original)]),
         _ => v,
@@ -571,6 +576,12 @@ fn generics_val(w: &World, s: &Spec, m: &Magic, e: &ElemIn, vr: Vr) -> Result<Va
         plain_params.push(Val::Variant("GenericParam".into(), kind.into(), vec![("0".into(), toks(&text))]));
         let inner = match (m.wrap.as_str(), tp, m.field_recv) {
             ("ast", Some(t), Some(id)) => eval_tparam_recv(w, w.spec(id), t, Some(P_TPARAM + i), vr)?,
+            // inside `darling::Result<..>` a failing parameter is captured: the field holds the error (of the first
+            // failing parameter), the receiver is built all the same
+            ("result_ast", Some(t), Some(id)) => match eval_tparam_recv(w, w.spec(id), t, Some(P_TPARAM + i), vr) {
+                Ok(v) => v,
+                Err(ls) => return Ok(Val::Variant("Result".into(), "Err".into(), vec![("0".into(), Val::Int(ls.len() as i64))])),
+            },
             _ => toks(&text),
         };
         params.push(Val::Variant("GenericParam".into(), kind.into(), vec![("0".into(), inner)]));
